@@ -1,4 +1,5 @@
 import SeqVerif.Model.Dist
+import SeqVerif.Model.FracInfo
 import SeqVerif.Extracted.C14T
 /-!
 # C14 - hand models = mechanical translations of the Go source (regenerated on every run)
@@ -211,6 +212,75 @@ theorem c14_t_IsIntersecting (d : Dist) (h : Plain d) (qf qt : Nat) :
     simp only [Int.toNat_natCast]
     rw [c14_t_HasBitsIn _ _ _ ha' hb']
     cases hasBitsIn? d.mask.bin a b <;> rfl
+
+/-- `Bitmask.Set(pos, state)` with its index panic (the write returns the new byte list) -/
+theorem c14_t_Set (bin : List Nat) (pos : Nat) (state : Bool) :
+    T.Bitmask_Set (ints bin) pos state = (set? bin pos state).map ints := by
+  unfold T.Bitmask_Set set? Bitmask.set
+  have hk : ¬ ¬ ((0 : Int) ≤ ((pos % 8 : Nat) : Int)) := by omega
+  have hs : wrapU8 (shl 1 ((pos % 8 : Nat) : Int)) = (((1 <<< (pos % 8)) % 256 : Nat) : Int) := by
+    have e : shl 1 ((pos % 8 : Nat) : Int) = ((1 <<< (pos % 8) : Nat) : Int) := shl_natCast 1 (pos % 8)
+    rw [e]; unfold wrapU8; omega
+  simp only [tdiv8, tmod8, if_neg hk, hs]
+  have hm : (1 <<< (pos % 8)) % 256 < 256 := Nat.mod_lt _ (by omega)
+  generalize (1 <<< (pos % 8)) % 256 = mask at *
+  have hsub : (255 : Int) - (mask : Int) = ((255 - mask : Nat) : Int) := by omega
+  by_cases h : pos / 8 < bin.length
+  · rw [idx_ints _ _ h]
+    simp only [Option.bind_some, if_pos h, byteAt, getD_of_lt _ _ _ h, Option.map_some, hsub, bor_natCast, band_natCast,
+      set_ints]
+    cases state <;> simp
+  · rw [idx_ints_none _ _ (by omega)]
+    cases state <;> simp [h]
+
+/-- `MIDsDistribution.Add(mid)` for a plain distribution = `Dist.add?` (the new bitmask bytes; `none` = index panic) -/
+theorem c14_t_Add (d : Dist) (h : Plain d) (m : Nat) :
+    T.MIDsDistribution_Add d.dfrom d.dto d.bucket d.mask.size (ints d.mask.bin) m
+      = (add? d m).map fun d' => ints d'.mask.bin := by
+  unfold T.MIDsDistribution_Add add? Dist.add
+  have hb := mti_bounds d h m
+  have hb0 : ¬ (d.bucket = 0) := by have := h.bucket_pos; omega
+  have hn : ¬ (midToIndex d m < 0) := by omega
+  obtain ⟨a, ha⟩ := Int.eq_ofNat_of_zero_le hb.1
+  simp only [c14_t_midToIndex d h, Option.bind_some, if_neg hb0, if_neg hn]
+  rw [ha]
+  simp only [c14_t_Set, Int.toNat_natCast, set?]
+  by_cases hlt : a / 8 < d.mask.bin.length
+  · simp [hlt]
+  · simp [hlt]
+
+/-- `frac.Info.IsIntersecting(from, to)` (the fraction-level pruning test of C14) = `FracInfo.isIntersecting?`:
+without a distribution (`s.Distribution == nil`, whatever the other distribution fields are) ... -/
+theorem c14_t_Info_IsIntersecting_nil (s : FracInfo.Info) (hd : s.dist = none) (qf qt : Nat) (a b c e : Int) (l : List Int) :
+    T.Info_IsIntersecting s.ifrom s.ito a b c e l true s.docsTotal qf qt = FracInfo.isIntersecting? s qf qt := by
+  unfold T.Info_IsIntersecting FracInfo.isIntersecting?
+  by_cases h0 : s.docsTotal = 0
+  · have h0' : (s.docsTotal : Int) = 0 := by omega
+    simp only [if_pos h0, if_pos h0']
+  · have h0' : ¬ ((s.docsTotal : Int) = 0) := by omega
+    simp only [if_neg h0, if_neg h0', hd]
+    by_cases h1 : qt < s.ifrom ∨ s.ito < qf
+    · have h1' : (qt : Int) < (s.ifrom : Int) ∨ (s.ito : Int) < (qf : Int) := by omega
+      simp only [if_pos h1, if_pos h1']
+    · have h1' : ¬ ((qt : Int) < (s.ifrom : Int) ∨ (s.ito : Int) < (qf : Int)) := by omega
+      simp only [if_neg h1, if_neg h1', if_true]
+
+/-- ... and with a plain distribution `d` (its fields passed field by field, `Distribution != nil`) -/
+theorem c14_t_Info_IsIntersecting (s : FracInfo.Info) (d : Dist) (hd : s.dist = some d) (hp : Plain d) (qf qt : Nat) :
+    T.Info_IsIntersecting s.ifrom s.ito d.dfrom d.dto d.bucket d.mask.size (ints d.mask.bin) false s.docsTotal qf qt
+      = FracInfo.isIntersecting? s qf qt := by
+  unfold T.Info_IsIntersecting FracInfo.isIntersecting?
+  by_cases h0 : s.docsTotal = 0
+  · have h0' : (s.docsTotal : Int) = 0 := by omega
+    simp only [if_pos h0, if_pos h0']
+  · have h0' : ¬ ((s.docsTotal : Int) = 0) := by omega
+    simp only [if_neg h0, if_neg h0', hd]
+    by_cases h1 : qt < s.ifrom ∨ s.ito < qf
+    · have h1' : (qt : Int) < (s.ifrom : Int) ∨ (s.ito : Int) < (qf : Int) := by omega
+      simp only [if_pos h1, if_pos h1']
+    · have h1' : ¬ ((qt : Int) < (s.ifrom : Int) ∨ (s.ito : Int) < (qf : Int)) := by omega
+      simp only [if_neg h1, if_neg h1', Bool.false_eq_true, if_false, c14_t_IsIntersecting d hp]
+      cases isIntersecting? d qf qt <;> rfl
 
 /-- non-vacuity of `Plain`: one hour of one-minute buckets, 63 bits -/
 example : Plain ⟨0, 3600000000000, 60000000000, ⟨63, List.replicate 8 0⟩⟩ :=
